@@ -70,6 +70,12 @@ pub fn c02(seed: u64, runs: usize, nmax: usize, tw: &mut TraceWriter) -> Cov {
         let mut cfg = base_cfg();
         cfg.fanout = r.random_range(1..=4);
         cfg.maxtx = r.random_range(1..=10);
+        // probe_rtt < probe_period, sometimes only just
+        match r.random_range(0..4) {
+            0 => { cfg.period = 500; cfg.rtt = 400; }
+            1 => { cfg.period = 700; cfg.rtt = 500; }
+            _ => {}
+        }
         let p = cfg.period;
         if r.random_range(0..2) == 0 {
             cfg.pg = Some((pick(&mut r, &[p / 3, p, 2 * p]), r.random_range(1..=3)));
@@ -87,7 +93,8 @@ pub fn c02(seed: u64, runs: usize, nmax: usize, tw: &mut TraceWriter) -> Cov {
         let scfg = SimCfg { n, cfg: cfg.clone(), codec: CodecKind::Hand(Mode::Fixed), handler: HandlerCfg::default(), pol: Policy::None,
                             seed: r.random(), lat: (0, lat_hi), late: 0 };
         let mut sim = Sim::new(scfg, run as u64, "c02", json!({"nodisc": nodisc}), tw);
-        form(&mut sim, &mut r, 2 * p);
+        let spread = pick(&mut r, &[0u64, p / 8, p / 2, 2 * p]);
+        form(&mut sim, &mut r, spread);
         let last_join = sim.now;
         let horizon = last_join + (4 * n as u64 + 10) * p + p;
         sim.run_until(horizon);
